@@ -37,19 +37,30 @@ impl Grp {
 /// Operator forms whose *left* operand is a reference (`&v + w`, `&v + &w`): they need
 /// `&T: Add<..>`, which generic code cannot name, so each concrete leaf element type hands out
 /// function pointers instantiated at the concrete vector type.
-pub struct RefOps<V> {
+pub struct RefOps<V, X> {
     pub ref_add_val: fn(&V, V) -> V,
     pub ref_add_ref: fn(&V, &V) -> V,
+    /// `v.reduce_min()`, `reduce_max`, `reduce_partial_min`, `reduce_partial_max` (`T: Ord` / `PartialOrd`): one
+    /// element is chosen and returned, the others are destroyed
+    pub reduce_ord: [fn(V) -> X; 4],
+    /// `V::min(a, b)`, `max`, `partial_min`, `partial_max`: lane by lane one of the two is kept, the other destroyed
+    pub pick_ord: [fn(V, V) -> V; 4],
 }
 macro_rules! ref_ops_decl {
     ($($m:ident $Vec:ident),+) => {
-        $(fn $m() -> Option<RefOps<vek::vec::repr_c::$Vec<Self>>> { None })+
+        $(fn $m() -> Option<RefOps<vek::vec::repr_c::$Vec<Self>, Self>> { None })+
     };
 }
 macro_rules! ref_ops_impl {
     ($($m:ident $Vec:ident),+) => {
-        $(fn $m() -> Option<RefOps<vek::vec::repr_c::$Vec<Self>>> {
-            Some(RefOps { ref_add_val: |a, b| a + b, ref_add_ref: |a, b| a + b })
+        $(fn $m() -> Option<RefOps<vek::vec::repr_c::$Vec<Self>, Self>> {
+            use vek::vec::repr_c::$Vec as V;
+            Some(RefOps {
+                ref_add_val: |a, b| a + b,
+                ref_add_ref: |a, b| a + b,
+                reduce_ord: [|v| v.reduce_min(), |v| v.reduce_max(), |v| v.reduce_partial_min(), |v| v.reduce_partial_max()],
+                pick_ord: [|a, b| V::min(a, b), |a, b| V::max(a, b), |a, b| V::partial_min(a, b), |a, b| V::partial_max(a, b)],
+            })
         })+
     };
 }
@@ -247,6 +258,17 @@ impl Hash for Wide {
 impl PartialEq for Wide {
     fn eq(&self, o: &Wide) -> bool {
         self.inner == o.inner
+    }
+}
+impl PartialOrd for Wide {
+    fn partial_cmp(&self, o: &Wide) -> Option<std::cmp::Ordering> {
+        self.inner.partial_cmp(&o.inner)
+    }
+}
+impl Eq for Wide {}
+impl Ord for Wide {
+    fn cmp(&self, o: &Wide) -> std::cmp::Ordering {
+        self.inner.cmp(&o.inner)
     }
 }
 impl Default for Wide {
@@ -509,7 +531,7 @@ pub trait Kind<X: Item>: 'static {
     fn v_elem_sum(a: Self::V) -> X;
     fn v_elem_product(a: Self::V) -> X;
     /// `&v + w`, `&v + &w` (only for the concrete leaf element types)
-    fn ref_ops() -> Option<RefOps<Self::V>>;
+    fn ref_ops() -> Option<RefOps<Self::V, X>>;
     /// kind / size conversions available for this vector type with no bound on the element type
     /// (`From<other kind>`, `From<(smaller, scalar)>`, truncating `From<larger>`), each composed so
     /// that it ends in this type again
@@ -641,7 +663,7 @@ macro_rules! kind {
             fn v_product_of<I: Iterator<Item = Self::V>>(i: I) -> Self::V { i.product() }
             fn v_elem_sum(a: Self::V) -> X { a.sum() }
             fn v_elem_product(a: Self::V) -> X { a.product() }
-            fn ref_ops() -> Option<RefOps<Self::V>> { X::$ro() }
+            fn ref_ops() -> Option<RefOps<Self::V, X>> { X::$ro() }
             fn kc_specs() -> &'static [KcSpec] { crate::kindconv::$K::SPECS }
             fn v_kind_conv(v: Self::V, variant: usize, extras: Vec<X>) -> Self::V { crate::kindconv::$K::conv::<X>(v, variant, extras) }
             fn from_slice_u32(s: &[u32]) -> Vec<u32> {
